@@ -85,7 +85,7 @@ CHECKS = {
  "C14": dict(
    technique="property-based testing: generated failing templates (structured programs with failing pieces, character-level mutations, truncations), validity oracle on every located error of the cause chain, metamorphic relation under vertical/horizontal padding, enumerated planted errors with known lines",
    level="exploration",
-   text="For every error of the cause chain that names a template the line must lie inside that template's source and a reported range must be a valid slice (bounds, char boundaries) on the reported line; inserting N lines above / M characters in front must shift line/range by exactly that and change nothing else; all formatting forms must complete. A division by zero planted in 29 expression positions and 12 failing statements that end their line (x surroundings x offsets, enumerated) must be reported on its own line.",
+   text="For every error of the cause chain that names a template the line must lie inside that template's source and a reported range must be a valid slice (bounds, char boundaries) on the reported line; inserting N lines above / M characters in front must shift line/range by exactly that and change nothing else; all formatting forms must complete. A division by zero planted in 29 expression positions and 16 failing statements that end their line (x surroundings x offsets, enumerated) must be reported on its own line.",
    note="Vertical shifts are only asserted while the padded template stays within 65 535 lines (the property's domain).",
    design="3/C14"),
  "C15": dict(
